@@ -1,4 +1,5 @@
 import VlsModel.Lemmas.Bolt3
+import VlsModel.Lemmas.Bolt3Bytes
 /-
 C04 — Commitment signatures bind to the BOLT-3 transaction of the validated content.
 
@@ -185,6 +186,142 @@ theorem C04_mutation_witscript (hw : Function.Injective wsh) (env : Env) (s : Se
     simp [classify, hspk, this]
   rw [decodeOuts_none_of_mem wsh s k _ _ hmem hcl] at hdec
   cases hdec
+
+/-- **C04_htlc_sigs_canon.**  The HTLC signatures phase 2 returns are, in output order, signatures
+    under the channel's HTLC key over exactly the second-level HTLC transactions of the canonical
+    commitment: one per HTLC of the content, each spending the output of `canon c` at `vout` — which
+    is that HTLC's output (value, P2WSH of its HTLC script) —, with the HTLC script as redeem script,
+    the HTLC amount, locktime = cltv for offered / 0 for received, the type's sequence and sighash
+    flag, the fee-reduced (or, zero-fee, full) value paid to the to_local script.
+    (Phase 1, `sign_counterparty_commitment_tx`, returns the commitment signature only.) -/
+theorem C04_htlc_sigs_canon (env : Env) (s : Setup) (k : Keys) (c : Content) (sig : S) (hsigs : List S)
+    (h : phase2 wsh okey cr env s k c = .ok (sig, hsigs)) :
+    ∃ rtx, canon wsh okey s k c = some rtx ∧
+      sig = cr.sign env.fundingKey (cr.sighash rtx) ∧
+      hsigs = (htlcTxs wsh okey s k c rtx).map (fun t => cr.sign env.htlcKey (cr.htlcSighash t)) ∧
+      (htlcTxs wsh okey s k c rtx).length = c.offered.length + c.received.length ∧
+      ∀ t ∈ htlcTxs wsh okey s k c rtx, t.parent = rtx ∧
+        ∃ off hl, hl ∈ (if off then c.offered else c.received) ∧
+          rtx.outputs[t.vout]? = some ⟨hl.value, .p2wsh (wsh (htlcScript s k off hl))⟩ ∧
+          t.redeem = htlcScript s k off hl ∧ t.amount = hl.value ∧
+          t.locktime = (if off then hl.cltv else 0) ∧ t.value = htlcTxValue s c.feerate off hl ∧
+          t.value.isSome = true ∧
+          t.outScript = toLocalScript s k ∧ t.sequence = (if s.ctype.ldkAnchors then 1 else 0) ∧
+          t.singleAcp = s.ctype.ldkAnchors := by
+  unfold phase2 at h
+  split at h
+  · cases h
+  simp only at h
+  split at h
+  · cases h
+  split at h
+  · cases h
+  rename_i rtx hcanon
+  split at h
+  · cases h
+  rename_i hval
+  split at h
+  · cases h
+  injection h with h
+  injection h with hsig hh
+  refine ⟨rtx, hcanon, hsig.symm, hh.symm, ?_, ?_⟩
+  · unfold htlcTxs canonElems
+    rw [htlcTxsAux_length, (isort_perm _ _).countP_eq, rawElems_countP]
+  · intro t ht
+    have hv : t.value.isSome = true := by
+      simp only [List.any_eq_true, not_exists, not_and, Bool.not_eq_true] at hval
+      have := hval t ht
+      cases hx : t.value <;> simp_all
+    obtain ⟨j, e, off, hl, hj, he, hvout, hpar, hred, ham, hlt, hvl, hos, hsq, hacp⟩ :=
+      htlcTxsAux_spec s k c rtx _ 0 t ht
+    have hmem : e ∈ rawElems wsh s k c :=
+      (isort_perm _ _).subset (List.mem_of_getElem? hj)
+    obtain ⟨heq, hin⟩ := rawElems_htlc wsh s k c e hmem off hl he
+    refine ⟨hpar, off, hl, hin, ?_, hred, ham, hlt, hvl, hv, hos, hsq, hacp⟩
+    unfold canon at hcanon
+    split at hcanon
+    · cases hcanon
+    injection hcanon with hcanon
+    subst hcanon
+    simp only [hvout, Nat.zero_add, List.getElem?_map]
+    rw [hj, heq]
+    rfl
+
+/-! ## Byte layer (`Model/Bolt3Bytes.lean`)
+
+The byte-level instance of the model: `H := Nat` (256-bit P2WSH programs), `wshB env` = SHA-256 (executable,
+`Prim/Sha256.lean`) of the real script bytes of the template, `okeyB env` = the lexicographic byte order
+of script_pubkeys, `ser env` = the witness-less consensus serialisation.  The harness compares
+`ser (canon c)` with the bytes of the transaction LDK really builds on every generated content.
+
+What is proved: `ser` is injective on well-formed structured transactions, so "byte for byte equal"
+and "structurally equal" coincide and the theorems above speak about bytes; `okeyB` is injective
+(so that hypothesis of `C04_phase_agree` is discharged by this instance, given only that HASH160 does
+not collide on the channel's finitely many keys — decidable, `wfEnv`).
+What stays a hypothesis: `Function.Injective (wshB env)`, i.e. SHA-256 collision freedom on script
+serialisations (no executable hash can be *proved* injective; it is false for any compressing function
+and only computationally infeasible to refute). -/
+
+section bytes
+variable {M S : Type} (env : BEnv) (crB : Crypto Nat M S)
+
+/-- **C04_ser_injective.**  On well-formed structured transactions, equal bytes ⇔ equal structure. -/
+theorem C04_ser_injective (henv : wfEnv env = true) (a b : CTx Nat)
+    (wa : wfTx env a = true) (wb : wfTx env b = true) : ser env a = ser env b ↔ a = b :=
+  ⟨ser_injective env (wfEnv_iff env henv) a b wa wb, fun h => by rw [h]⟩
+
+/-- The canonical transaction of a content that fits the wire widths is a well-formed structured tx. -/
+theorem C04_canon_wfTx (s : Setup) (k : Keys) (c : Content) (tx : CTx Nat)
+    (hf : fits env s k c = true) (hc : canon (wshB env) (okeyB env) s k c = some tx) :
+    wfTx env tx = true := canon_wfTx env s k c tx hf hc
+
+/-- **C04_phase1_accepts_only_canon_bytes.**  At the byte level: what phase 1 accepts serialises to
+    exactly the bytes of the canonical transaction of the decoded content, and the signature is over
+    that canonical transaction. -/
+theorem C04_phase1_accepts_only_canon_bytes (e : Env) (hm : e.mismatchIsError = true) (s : Setup) (k : Keys)
+    (tx : CTx Nat) (ws : List (Option Script)) (commitNum feerate : Nat) (offered received : List Htlc) (sig : S)
+    (h : phase1 (wshB env) (okeyB env) crB e s k tx ws commitNum feerate offered received = .ok sig) :
+    ∃ info rtx,
+      decode (wshB env) s k tx ws = some info ∧
+      canon (wshB env) (okeyB env) s k (decodedContent info commitNum feerate offered received) = some rtx ∧
+      ser env tx = ser env rtx ∧ sig = crB.sign e.fundingKey (crB.sighash rtx) := by
+  obtain ⟨info, rtx, h1, h2, h3, h4⟩ :=
+    C04_phase1_accepts_only_canon (wshB env) (okeyB env) crB e s k tx ws commitNum feerate offered received sig h
+  exact ⟨info, rtx, h1, h2, by rw [h4 hm], h3⟩
+
+/-- **C04_equality_test_bytewise.**  The structural test `recomposed ≠ tx` of the model is the byte
+    comparison of the implementation: for a well-formed submitted transaction it fails exactly when
+    the serialisations differ. -/
+theorem C04_equality_test_bytewise (henv : wfEnv env = true) (s : Setup) (k : Keys) (c : Content)
+    (tx rtx : CTx Nat) (hf : fits env s k c = true) (hc : canon (wshB env) (okeyB env) s k c = some rtx)
+    (wtx : wfTx env tx = true) : rtx ≠ tx ↔ ser env rtx ≠ ser env tx := by
+  have := C04_ser_injective env henv rtx tx (canon_wfTx env s k c rtx hf hc) wtx
+  exact not_congr this.symm
+
+/-- **C04_phase_agree_bytes.**  Phase agreement at the byte-level instance: the order-key hypothesis
+    is discharged (`okeyB_injective`); SHA-256 collision freedom remains the only cryptographic
+    hypothesis. -/
+theorem C04_phase_agree_bytes (henv : wfEnv env = true) (hsha : Function.Injective (wshB env))
+    (e : Env) (s : Setup) (k : Keys) (c : Content) (hwf : wf s k c = true) (sig : S) (hsigs : List S)
+    (h : phase2 (wshB env) (okeyB env) crB e s k c = .ok (sig, hsigs)) :
+    ∃ tx, canon (wshB env) (okeyB env) s k c = some tx ∧
+      phase1 (wshB env) (okeyB env) crB e s k tx (canonWs (wshB env) (okeyB env) s k c)
+        c.commitNum c.feerate c.offered c.received = .ok sig :=
+  C04_phase_agree (wshB env) (okeyB env) crB hsha (okeyB_injective env (wfEnv_iff env henv)) e s k c hwf sig hsigs h
+
+/-- a concrete environment (7 channel keys with distinct HASH160 values): `wfEnv` holds by evaluation,
+    hence `okeyB env0` is an injective order key — an instance, not an assumption -/
+def env0 : BEnv :=
+  { nKeys := 8, keyBytes := fun k => List.replicate 33 (UInt8.ofNat k), keyHash160 := fun k => 1000 + k,
+    payHash160 := fun h => h }
+
+example : wfEnv env0 = true := by decide
+example : Function.Injective (okeyB env0) := okeyB_injective env0 (wfEnv_iff env0 (by decide))
+/-- the sample content of the non-vacuity section fits the wire widths (hypothesis of `C04_canon_wfTx`) -/
+example : fits env0 ⟨.staticRemoteKey, true, 6, 7, 2, 0, 3000000, 0x2bb038521914⟩ ⟨1, 2, 3, 4, 5, 6, 7⟩
+    ⟨23, 1000, 1000000, 1979997, [⟨4000, 1, 131072⟩], [⟨5000, 3, 196608⟩, ⟨10003, 5, 262144⟩]⟩ = true := by decide
+
+end bytes
 
 /-! ## The full-strength agreement claim fails for the deprecated type `Anchors`
 
